@@ -100,7 +100,23 @@ func runOnce(t *testing.T, sc *Scenario, tape *Tape, keepLog bool) (res RunResul
 		}
 		res.WallUs = time.Since(wall).Microseconds()
 	}()
-	synctest.Test(t, func(t *testing.T) {
+	// The bubble is entered from a helper goroutine: when the race detector reports something
+	// inside a bubble, the testing package aborts the goroutine that called synctest.Test
+	// (runtime.Goexit "up the chain"); the worker loop must survive that.
+	bubble := func(f func(t *testing.T)) {
+		done := make(chan struct{})
+		go func() {
+			defer close(done)
+			defer func() {
+				if r := recover(); r != nil {
+					res.ToolErr = fmt.Sprintf("bubble: %v", r)
+				}
+			}()
+			synctest.Test(t, f)
+		}()
+		<-done
+	}
+	bubble(func(t *testing.T) {
 		w := newWorld(sc.Prop, tape)
 		w.KeepLog = keepLog
 		tape.Trace = keepLog
